@@ -131,7 +131,18 @@ def run(ctx):
                   node=program.func(CYC), rel="decorators/state.py")
 
     ctx.rule("R05.6", "legacy loops: a received notification is never treated as hold expiry; thresholds and first-event arguments", floor=4)
-    for uid in ("trigger.py::TrigInfo.trigger_watch", "trigger.py::TrigTime.wait_until"):
+    legacy_hold_rules(ctx, program, "R05.6")
+    return (
+        "Static, source-only: _check_new_state is abstractly interpreted on the full grid trig_ok x hold x hold_false x expression x timer states x 4 instants (512 steps) and each "
+        "clause of the statement is asserted on the resulting timer fields and dispatch events; one or two loop iterations of _cycle are interpreted for the non-evaluation, "
+        "hold-expiry-arguments and start-up clauses; structural sibling rules on the two legacy loops.  Not decided: behaviour over timed histories on a real clock."
+    )
+
+
+def legacy_hold_rules(ctx, program, rid, uids=("trigger.py::TrigInfo.trigger_watch", "trigger.py::TrigTime.wait_until")):
+    """Structural sibling rules on the legacy loops (shared with C15 for wait_until)."""
+    program = ctx.program
+    for uid in uids:
         fl = program.func(uid)
         ok = False
         for t in body_walk(fl):
@@ -140,22 +151,16 @@ def run(ctx):
                 rest = t.body[idx[0] + 1:] if idx else []
                 if any(isinstance(s, ast.Assign) and norm(s) == "state_trig_timeout = False" for s in rest):
                     ok = True
-        ctx.check(ok, "R05.6", uid, "state_trig_timeout cleared when a notification arrives",
+        ctx.check(ok, rid, uid, "state_trig_timeout cleared when a notification arrives",
                   msg=f"{uid}: after asyncio.wait_for returns a notification the hold-expiry flag is not cleared: any notification during a pending state_hold (even a false evaluation or an "
                   f"attribute-only update) releases the held run immediately", key="notification clears expiry flag", node=fl, rel="trigger.py")
         txt = norm(fl)
         ok = ("too_soon = time.monotonic() - state_false_time < self.state_hold_false" in txt) or ("too_soon = time.monotonic() - state_false_time < state_hold_false" in txt)
-        ctx.check(ok, "R05.6", uid, "hold_false threshold: too soon iff elapsed < H", msg=f"{uid}: the state_hold_false comparison is no longer `elapsed < H`", key="legacy hold_false threshold", node=fl, rel="trigger.py")
+        ctx.check(ok, rid, uid, "hold_false threshold: too soon iff elapsed < H", msg=f"{uid}: the state_hold_false comparison is no longer `elapsed < H`", key="legacy hold_false threshold", node=fl, rel="trigger.py")
         ok = "if not state_trig_waiting:" in txt and "state_trig_notify_info = notify_info" in txt
         ws = [n for n in body_walk(fl) if isinstance(n, ast.Assign) and norm(n.targets[0]) == "state_trig_notify_info" and norm(n.value) == "notify_info"]
         ok = ok and all(isinstance(getattr(w, "_parent", None), ast.If) and norm(w._parent.test) == "not state_trig_waiting" for w in ws) and bool(ws)
-        ctx.check(ok, "R05.6", uid, "hold arguments recorded only when the hold starts", msg=f"{uid}: state_trig_notify_info is overwritten while a hold is pending", key="legacy hold args", node=fl, rel="trigger.py")
-    return (
-        "Static, source-only: _check_new_state is abstractly interpreted on the full grid trig_ok x hold x hold_false x expression x timer states x 4 instants (512 steps) and each "
-        "clause of the statement is asserted on the resulting timer fields and dispatch events; one or two loop iterations of _cycle are interpreted for the non-evaluation, "
-        "hold-expiry-arguments and start-up clauses; structural sibling rules on the two legacy loops.  Not decided: behaviour over timed histories on a real clock."
-    )
-
+        ctx.check(ok, rid, uid, "hold arguments recorded only when the hold starts", msg=f"{uid}: state_trig_notify_info is overwritten while a hold is pending", key="legacy hold args", node=fl, rel="trigger.py")
 
 def _cycle_run(program, script, te, fe, S, H, times, check_now=False, expr_true=True, from_start=False):
     """Run _cycle with a scripted queue: ('note', func_args, any, changed, expr_true) | ('timeout',) | ('stop',)."""
